@@ -16,10 +16,10 @@ PARTS = {
     'quick': [
       C('cmp-values', 'base', 'dom=all', 'grid=small'),
       C('cmp-int-asan', 'asan', 'dom=int', 'grid=small'),
-      C('cmp-values-asan', 'asan', 'dom=float,string,type,rawall,recycled,reptuple', 'grid=small'),
+      C('cmp-values-asan', 'asan', 'dom=float,string,type,rawall,recycled,reptuple,mixed', 'grid=small'),
     ],
     'thorough': [
-      C('cmp-int-float-type', 'base', 'dom=int,float,type,recycled,reptuple', 'grid=large'),
+      C('cmp-int-float-type', 'base', 'dom=int,float,type,recycled,reptuple,mixed', 'grid=large'),
       C('cmp-string4', 'base', 'dom=string', 'grid=large'),
       C('cmp-raw256', 'base', 'dom=raw', 'grid=large'),
       C('cmp-rawsizes-a', 'base', 'dom=raw1,raw3,raw4,raw7,raw9', 'grid=large'),
@@ -27,7 +27,7 @@ PARTS = {
       C('cmp-rawsizes-c', 'base', 'dom=raw20,raw21', 'grid=large'),
       C('cmp-rawbig', 'base', 'dom=rawbig', 'grid=large'),
       C('cmp-int-asan', 'asan', 'dom=int', 'grid=large'),
-      C('cmp-float-type-asan', 'asan', 'dom=float,type,recycled,reptuple', 'grid=large'),
+      C('cmp-float-type-asan', 'asan', 'dom=float,type,recycled,reptuple,mixed', 'grid=large'),
       C('cmp-string4-asan', 'asan', 'dom=string', 'grid=large'),
       C('cmp-raw256-asan', 'asan', 'dom=raw', 'grid=large'),
       C('cmp-rawsizes-a-asan', 'asan', 'dom=raw1,raw3,raw4,raw7,raw9', 'grid=large'),
